@@ -38,7 +38,7 @@ MANIFEST = dict(
     category="proof",
     text=("Executable model of Graph.Canon (error sort, root-keeping node sort with the duplicate flag as Go computes it, "
           "renumber, breadth-first relabelling, second renumber) with theorems over all graphs and all renumberings for the "
-          "repaired duplicate test, and a refutation witness for the current one (known finding F-C13-1). Tied to the code by "
+          "duplicate test by scan (the code in the tree since the repair 667b339), and a refutation witness for the old test inside Less (F-C13-1, fixed); the translator reads which variant the source has. Tied to the code by "
           "differential execution; invariance, idempotence and preservation are also evaluated directly on the Go outputs."),
     note=("Trusted: Coq kernel (+vm_compute), translator gotables, extraction and driver.ml, Go harness, python generators/oracle. "
           "The model is hand-written and validated by execution each run. sort.Sort is modelled literally for <= 12 elements only."),
